@@ -113,15 +113,6 @@ impl Default for TimeScale {
 }
 
 impl TimeScale {
-    pub(crate) const fn formatted_len(&self) -> usize {
-        match &self {
-            Self::QZSST => 5,
-            Self::GPST => 4,
-            Self::TAI | Self::TDB | Self::UTC | Self::GST | Self::BDT => 3,
-            Self::ET | Self::TT => 2,
-        }
-    }
-
     /// Returns true if Self is based off a GNSS constellation
     pub const fn is_gnss(&self) -> bool {
         matches!(self, Self::GPST | Self::GST | Self::BDT | Self::QZSST)
